@@ -105,7 +105,6 @@ func (r *Result) add(f Finding) {
 		r.OracleFails++
 	case "known":
 		r.KnownHits++
-		f.Known = f.Known // attributed to a listed class by the runner; bin/check verifies the class is listed
 		for _, g := range r.Findings {
 			if g.Kind == "known" && g.Known == f.Known {
 				return // one representative per class is enough
@@ -115,7 +114,14 @@ func (r *Result) add(f Finding) {
 		r.Disagreements++
 	}
 	// oracle failures first, keep the smallest few of each kind
-	if len(r.Findings) < 40 || f.Kind == "known" {
+	// keep a bounded number of each kind, so that oracle failures are never crowded out by disagreements
+	n := 0
+	for _, g := range r.Findings {
+		if g.Kind == f.Kind {
+			n++
+		}
+	}
+	if n < 25 || f.Kind == "known" {
 		r.Findings = append(r.Findings, f)
 	}
 }
